@@ -85,7 +85,7 @@ impl Family for Fam {
                 self.sks.insert(a[0], CpcSketch::with_seed(a[1] as u8, self.seed));
                 vec![]
             }
-            11 | 12 | 13 | 14 | 15 | 16 => {
+            11 | 12 | 13 | 14 | 15 | 16 | 17 => {
                 let Some(s) = self.sks.get_mut(&a[0]) else { return vec![PANIC] };
                 match code {
                     11 => {
@@ -99,6 +99,7 @@ impl Family for Fam {
                     13 => dumpnf(&s.verif_state()),
                     14 => vec![s.validate() as i128],
                     15 => s.verif_bit_matrix().iter().map(|w| *w as i128).collect(),
+                    17 => s.serialize().iter().map(|b| *b as i128).collect(),
                     _ => {
                         let bytes = s.serialize();
                         let t = CpcSketch::deserialize_with_seed(&bytes, self.seed).expect("round trip");
@@ -175,6 +176,13 @@ impl Family for Fam {
                     }
                     4 => vec![s.validate() as i128],
                     5 => s.verif_bit_matrix().iter().map(|w| *w as i128).collect(),
+                    18 => {
+                        let bytes = s.serialize();
+                        let t = CpcSketch::deserialize_with_seed(&bytes, self.seed).expect("round trip");
+                        self.sk = Some(t);
+                        vec![]
+                    }
+                    19 => s.serialize().iter().map(|b| *b as i128).collect(),
                     8 => {
                         if s.verif_state().merge_flag {
                             vec![-1]
